@@ -17,6 +17,10 @@ P5 single publisher: asm_set is called from exactly one site, in isal_self_tests
 P6 verdict domain: the published value is a|b of the two suite results and both suites can only return 0 or 1.
 P7 result mapping: isal_self_tests returns 0 exactly on (check == 0) or (fresh run and a|b == 0).
 P8 no re-entry: no isal_* function is reachable from the self-test suites.
+G0-G5 the same premises for the portable C11 sibling implementation (fips/self_tests_generic.c, arch=noarch /
+   aarch64 builds): private status initialised to 2, single compare_exchange(2 -> 3), atomic accesses only,
+   winner-only suites and publication of a verdict in {0,1}, waiters leave only on status != 3 and decide on a
+   fresh load, fast-path returns follow the loaded status.
 """
 import build
 import ir
@@ -96,6 +100,123 @@ def ret_set(G, mods_fn, depth=0):
         out |= s
     _RET[G.name] = out
     return out
+
+
+def generic_protocol(chk):
+    """The portable C11 implementation of the same protocol (fips/self_tests_generic.c, built for aarch64 and
+    arch=noarch): premises G0-G5 on its IR, the analogue of P0-P7."""
+    units, st = build.build("default", only=lambda u: u["src"] == "fips/self_tests_generic.c", extra_make_args=("arch=noarch", "FIPS_MODE=y"), variant_tag="noarch-fips")
+    if not units:
+        chk.broke("fips/self_tests_generic.c is not part of the arch=noarch FIPS build")
+        return
+    M = ir.load_modules(units)["fips/self_tests_generic.c"]
+    F = M.functions.get("isal_self_tests")
+    if F is None or F.decl:
+        chk.broke("generic isal_self_tests not found")
+        return
+    src = "fips/self_tests_generic.c"
+    SELF = M.enum_value("ISAL_CRYPTO_ERR_SELF_TEST")
+
+    def G(name, ok, msg, loc=None, construct=None):
+        chk.obligation(name, ok, key=(name, construct or msg[:40]), sample={"premise": name, "holds": bool(ok), "what": msg})
+        if not ok:
+            chk.finding(Finding(name, src, "isal_self_tests", construct or name, "generic (C11) protocol: " + msg, loc=loc or src))
+    cx = [I for I in F.all_insts() if I.op == "cmpxchg"]
+    if len(cx) != 1:
+        G("G2", False, "expected exactly one compare-exchange on the status, found %d" % len(cx), construct="single-claim")
+        return
+    CX = cx[0]
+    groot = F.resolve(CX.ops[0])
+    gname = groot.get("name") if isinstance(groot, dict) and groot.get("k") == "g" else None
+    g = M.globals.get(gname) if gname else None
+    G("G0", g is not None and g.get("init_int") == "2" and g.get("local"), "the status object must be a private static initialised to 2 (NOT_DONE); found %s init=%s" % (gname, g.get("init_int") if g else None), construct="initial-state")
+    G("G2", F.const_int(CX.ops[1]) == 2 and F.const_int(CX.ops[2]) == 3, "the claim must be compare_exchange(expected = constant 2, desired = constant 3); found expected=%s desired=%s" % (
+        ir.expr_str(F, CX.ops[1]), ir.expr_str(F, CX.ops[2])), loc=CX.loc(), construct="claim-operands")
+
+    def is_status(p):
+        r, off = F.ptr_root(p)
+        return isinstance(r, dict) and r.get("k") == "g" and r.get("name") == gname
+
+    def success_flag(v):
+        I = F.resolve(v)
+        for _ in range(8):
+            if isinstance(I, ir.Inst) and I.op in ("zext", "trunc", "sext", "freeze"):
+                I = F.resolve(I.ops[0])
+            else:
+                break
+        return isinstance(I, ir.Inst) and I.op == "extractvalue" and I.raw.get("indices") == [1] and isinstance(F.resolve(I.ops[0]), ir.Inst) and F.resolve(I.ops[0]).id == CX.id
+    okall = {"G1": True, "G3": True, "G4": True, "G5": True}
+    why = {}
+    npaths = 0
+    for P in ir.paths_with_facts(F):
+        npaths += 1
+        ids = [I.id for I in P.insts]
+        has_cx = CX.id in ids
+        outcomes = {taken for (val, pred, c, taken, br, pos) in P.facts if pred is None and success_flag(val)}
+        if len(outcomes) > 1:
+            continue        # infeasible: one SSA flag cannot be both true and false in one execution
+        won = outcomes.pop() if outcomes else None
+        stores = [I for I in P.insts if I.op == "store" and is_status(I.ops[1])]
+        calls = [I.callee for I in P.insts if I.op == "call" and I.callee in ("_aes_self_tests", "_sha_self_tests")]
+        loads = [I for I in P.insts if I.op == "load" and is_status(I.ops[0])]
+        for I in stores + loads:
+            if not I.raw.get("atomic"):
+                # a plain read of an _Atomic object is still atomic in C11 only through the type; clang emits `load atomic`
+                okall["G1"] = False
+                why["G1"] = "non-atomic access to the status at %s" % I.loc()
+        # G3: winner-only work, verdict domain and order
+        if stores or calls:
+            if not (has_cx and won is True):
+                okall["G3"] = False
+                why["G3"] = "the suites run / the verdict is stored on a path that did not win the claim"
+            for S in stores:
+                v = F.const_int(S.ops[0])
+                zero_facts = {F.resolve(val).callee for (val, pred, c, t, br, pos) in P.facts if isinstance(F.resolve(val), ir.Inst) and F.resolve(val).op == "call" and pred == "eq" and c == 0 and pos < P.insts.index(S)}
+                nz_facts = {F.resolve(val).callee for (val, pred, c, t, br, pos) in P.facts if isinstance(F.resolve(val), ir.Inst) and F.resolve(val).op == "call" and pred == "ne" and c == 0 and pos < P.insts.index(S)}
+                if v == 0 and not ({"_aes_self_tests", "_sha_self_tests"} <= zero_facts):
+                    okall["G3"] = False
+                    why["G3"] = "OK is published without both suites having returned 0"
+                elif v == 1 and not nz_facts:
+                    okall["G3"] = False
+                    why["G3"] = "FAIL is published without a failing suite"
+                elif v not in (0, 1):
+                    okall["G3"] = False
+                    why["G3"] = "a value other than 0/1 is published"
+            if calls and not stores:
+                okall["G3"] = False
+                why["G3"] = "a winner path runs a suite and returns without publishing"
+            rv = P.ret
+            if stores and not ((F.const_int(stores[-1].ops[0]) == 0) == (rv == 0)):
+                okall["G3"] = False
+                why["G3"] = "the winner's return value disagrees with the verdict it published"
+        elif has_cx and won is False:
+            # G4 waiter: must pass the loop exit (status != 3) and decide on a later load
+            exitpos = [pos for (val, pred, c, t, br, pos) in P.facts if pred == "ne" and c == 3 and isinstance(F.resolve(val), ir.Inst) and F.resolve(val).op == "load" and is_status(F.resolve(val).ops[0])]
+            decided = [(pred, c) for (val, pred, c, t, br, pos) in P.facts if exitpos and pos > exitpos[-1] and isinstance(F.resolve(val), ir.Inst) and F.resolve(val).op == "load" and is_status(F.resolve(val).ops[0])]
+            if not exitpos:
+                okall["G4"] = False
+                why["G4"] = "a loser of the claim returns without waiting for status != RUNNING"
+            elif P.ret == 0 and ("eq", 0) not in decided:
+                okall["G4"] = False
+                why["G4"] = "a waiter returns success without having read status == OK after the wait"
+            elif P.ret not in (0, SELF):
+                okall["G4"] = False
+                why["G4"] = "a waiter returns %r" % (P.ret,)
+        elif not has_cx:
+            facts = [(pred, c) for (val, pred, c, t, br, pos) in P.facts if isinstance(F.resolve(val), ir.Inst) and F.resolve(val).op == "load" and is_status(F.resolve(val).ops[0])]
+            if P.ret == 0 and ("eq", 0) not in facts:
+                okall["G5"] = False
+                why["G5"] = "the fast path returns success without having read status == OK"
+            if P.ret == SELF and ("eq", 1) not in facts:
+                okall["G5"] = False
+                why["G5"] = "the fast path returns the error without having read status == FAIL"
+    # loop shape: the wait loop contains no store
+    for k in ("G1", "G3", "G4", "G5"):
+        G(k, okall[k], why.get(k, {"G1": "all status accesses are atomic", "G3": "suites and publication happen only on the winner's paths, verdict in {0,1}, return value consistent",
+                                     "G4": "losers wait for status != RUNNING and decide on a fresh load", "G5": "fast-path returns follow the loaded status"}[k]), construct=k)
+    chk.extra["generic_protocol_paths"] = npaths
+    if npaths < 7:
+        chk.broke("generic isal_self_tests has only %d paths" % npaths)
 
 
 def initial_state(so, ssym):
@@ -395,6 +516,7 @@ def run(chk):
     P("P8", not bad, "public isal_ entry points are reachable from the self-test suites (%s): the winner would wait on its own claim" % sorted(set(bad))[:4], obj="fips/aes_self_tests.c", fn="_aes_self_tests", construct="re-entry",
       sample={"premise": "P8", "functions_reachable_from_suites": nfun})
     chk.floor("functions reachable from the self-test suites", nfun, 100)
+    generic_protocol(chk)
     chk.extra["functions_reachable_from_suites"] = nfun
     return ("Premises P1-P8 of the once-protocol lemma decided on the FIPS build: ownership of self_test_status (%d references), shape of the lock cmpxchg claim and its "
             "constants, fast path, wait loop, single publisher with ordered suite calls, verdict domain {0,1}, result mapping, and absence of re-entry over %d functions reachable from the suites." % (len(refs), nfun))
